@@ -311,6 +311,15 @@ class DC:
     m: str = optree.dataclasses.field(default='meta', pytree_node=False)
 
 
+@optree.dataclasses.dataclass(namespace='ns')
+class DC2:
+    """optree dataclass whose metadata field comes FIRST and whose second child is keyword-only."""
+
+    m: str = optree.dataclasses.field(default='meta2', pytree_node=False)
+    a: object = None
+    b: object = optree.dataclasses.field(default=None, kw_only=True)
+
+
 class Reg:
     """Truth about one registration (reference model's view)."""
 
@@ -376,6 +385,10 @@ class Universe:
             return DC(a=children[0], b=children[1], **dict(metadata))
 
         self._add(DC, 'ns', dc_flatten, dc_unflatten, optree.accessor.DataclassEntry, 'tag:DC@ns')
+        self.DC2 = DC2
+        self._add(DC2, 'ns', lambda o: ((o.a, o.b), (('m', o.m),), ('a', 'b')),
+                  lambda metadata, children: DC2(a=children[0], b=children[1], **dict(metadata)),
+                  optree.accessor.DataclassEntry, 'tag:DC2@ns')
         self.std_dc = std_dc
 
         P = optree.functools.partial
